@@ -307,16 +307,23 @@ func (v *Validator) getActionsInSet(uids []types.EntityUID) []types.EntityUID {
 }
 
 func (v *Validator) isActionDescendant(actionUID, ancestorUID types.EntityUID) bool {
-	action := v.schema.Actions[actionUID]
-	for parent := range action.Entity.Parents.All() {
-		if parent == ancestorUID {
-			return true
+	// Visit every action once: in a hierarchy where each action of one layer is a member of several actions of the
+	// next, the number of paths to an ancestor doubles with every layer.
+	visited := map[types.EntityUID]struct{}{}
+	var reaches func(uid types.EntityUID) bool
+	reaches = func(uid types.EntityUID) bool {
+		if _, ok := visited[uid]; ok {
+			return false
 		}
-		if v.isActionDescendant(parent, ancestorUID) {
-			return true
+		visited[uid] = struct{}{}
+		for parent := range v.schema.Actions[uid].Entity.Parents.All() {
+			if parent == ancestorUID || reaches(parent) {
+				return true
+			}
 		}
+		return false
 	}
-	return false
+	return reaches(actionUID)
 }
 
 func (v *Validator) getEntityTypesIn(target types.EntityType) []types.EntityType {
